@@ -20,6 +20,18 @@
 (* Switch CountOnce = FALSE is the code.  TRUE: the number of free slots   *)
 (* is read once, in a lock region of its own, and the loop then claims     *)
 (* that many heads without looking at the capacity again.                  *)
+(*                                                                         *)
+(* Contexts.  Every transfer runs under a context of its own, derived from *)
+(* the context of the dispatcher that started it; it is cancelled when the *)
+(* receiver leaves (handlePeerLeft: slot released, context cancelled, a     *)
+(* dispatch with a fresh context - LeaveRunning).  The transfer function   *)
+(* of a receiver that left returns because of that cancellation, and its   *)
+(* tail then dispatches too (FinishLeft).  A receiver may accept at any    *)
+(* time: the read loop puts it into the queue in one region (Enqueue) and  *)
+(* dispatches in the next (Start) - a tail can get in between.             *)
+(* Switch TailUsesOwnCtx = TRUE (the code up to fix F-C12-3): the tail      *)
+(* dispatches with the context of the transfer that has just ended; if     *)
+(* that one was cancelled, the receiver it starts is started dead.         *)
 (***************************************************************************)
 EXTENDS Integers, Sequences, FiniteSets, TLC, Json
 
@@ -28,9 +40,11 @@ CONSTANTS Max,        \* max-receivers
           D,          \* dispatcher activations (read-loop calls + transfer tails)
           Callers,    \* how many of them are calls from the read loop (the rest are transfer tails)
           Busy,       \* transfers already running at the start (receivers NQ+1 .. NQ+Busy)
-          CountOnce, Track
+          Late,       \* receivers that accept later (NQ+Busy+1 .. NQ+Busy+Late)
+          CountOnce, TailUsesOwnCtx, Track
 
-Peers == 1..(NQ + Busy)
+Peers == 1..(NQ + Busy + Late)
+LatePeers == (NQ + Busy + 1)..(NQ + Busy + Late)
 Running0 == (NQ + 1)..(NQ + Busy)
 Disp == 1..D
 
@@ -40,22 +54,29 @@ VARIABLES queue,     \* receivers waiting, head first
           pc,        \* dispatcher -> "idle" | "claimed" (between two iterations) | "done"
           claim,     \* dispatcher -> the receiver it claimed in its last region and has not launched yet (0: none)
           free,      \* (CountOnce only) dispatcher -> slots it still believes to be free
+          left,      \* receivers that left while their transfer was running (context cancelled, slot released)
+          deadCtx,   \* dispatcher -> it dispatches with a cancelled context
+          deadStarts,\* receivers whose transfer was started with a cancelled context
+          accepted,  \* late receivers that have accepted
+          owed,      \* the read loop has queued a receiver and not yet made the dispatch that follows
           lastAct, depth
-vars == <<queue, active, launched, pc, claim, free, lastAct, depth>>
+vars == <<queue, active, launched, pc, claim, free, left, deadCtx, deadStarts, accepted, owed, lastAct, depth>>
 Step(a) == IF Track THEN lastAct' = a /\ depth' = depth + 1 ELSE UNCHANGED <<lastAct, depth>>
 
 Init == /\ queue = [i \in 1..NQ |-> i] /\ active = Running0 /\ launched = Running0
         /\ pc = [d \in Disp |-> "idle"] /\ claim = [d \in Disp |-> 0] /\ free = [d \in Disp |-> 0]
+        /\ left = {} /\ deadCtx = [d \in Disp |-> FALSE] /\ deadStarts = {} /\ accepted = {} /\ owed = FALSE
         /\ lastAct = [a |-> "init"] /\ depth = 0
 
 \* one lock region of the loop, for dispatcher d, given the slot set it sees
-Region(d, act, fr) ==
+Region(d, act, fr, dead) ==
   LET room == IF CountOnce THEN fr > 0 ELSE Cardinality(act) < Max
   IN IF room /\ queue # <<>>
        THEN /\ active' = act \cup {Head(queue)} /\ queue' = Tail(queue)
+            /\ deadStarts' = IF dead THEN deadStarts \cup {Head(queue)} ELSE deadStarts
             /\ pc' = [pc EXCEPT ![d] = "claimed"] /\ claim' = [claim EXCEPT ![d] = Head(queue)]
             /\ free' = [free EXCEPT ![d] = fr - 1]
-       ELSE /\ active' = act /\ UNCHANGED queue
+       ELSE /\ active' = act /\ UNCHANGED <<queue, deadStarts>>
             /\ pc' = [pc EXCEPT ![d] = "done"] /\ claim' = [claim EXCEPT ![d] = 0]
             /\ free' = [free EXCEPT ![d] = fr]
 
@@ -63,7 +84,7 @@ FreeNow(act) == IF queue = <<>> THEN 0 ELSE Max - Cardinality(act)
 
 \* CountOnce: the count is taken in a lock region of its own; the claims follow in later regions
 Count(d, act) ==
-  /\ active' = act /\ UNCHANGED queue
+  /\ active' = act /\ UNCHANGED <<queue, deadStarts>>
   /\ pc' = [pc EXCEPT ![d] = "counted"] /\ claim' = [claim EXCEPT ![d] = 0]
   /\ free' = [free EXCEPT ![d] = FreeNow(act)]
 
@@ -71,35 +92,73 @@ Count(d, act) ==
 Start(d) ==
   /\ d <= Callers /\ pc[d] = "idle"
   /\ \A e \in 1..Callers : pc[e] \in {"idle", "done"}
-  /\ IF CountOnce THEN Count(d, active) ELSE Region(d, active, 0)
-  /\ UNCHANGED launched
+  /\ IF CountOnce THEN Count(d, active) ELSE Region(d, active, 0, FALSE)
+  /\ deadCtx' = [deadCtx EXCEPT ![d] = FALSE] /\ owed' = FALSE
+  /\ UNCHANGED <<launched, left, accepted>>
   /\ Step([a |-> "Start", d |-> d])
 
 \* the dispatcher leaves its park: launches the transfer it claimed, runs the next region
 Iter(d) ==
   /\ pc[d] \in {"claimed", "counted"}
   /\ launched' = IF claim[d] # 0 THEN launched \cup {claim[d]} ELSE launched
-  /\ Region(d, active, free[d])
+  /\ Region(d, active, free[d], deadCtx[d])
+  /\ UNCHANGED <<left, deadCtx, accepted, owed>>
   /\ Step([a |-> "Iter", d |-> d])
 
 \* the transfer of p returns: slot released under the lock, tail dispatch as dispatcher d
 Finish(p, d) ==
   /\ d > Callers /\ pc[d] = "idle" /\ p \in launched /\ p \in active
   /\ launched' = launched \ {p}
-  /\ IF CountOnce THEN Count(d, active \ {p}) ELSE Region(d, active \ {p}, 0)
+  /\ IF CountOnce THEN Count(d, active \ {p}) ELSE Region(d, active \ {p}, 0, FALSE)
+  /\ deadCtx' = [deadCtx EXCEPT ![d] = FALSE]
+  /\ UNCHANGED <<left, accepted, owed>>
   /\ Step([a |-> "Finish", p |-> p, d |-> d])
 
-Next == \E d \in Disp : Start(d) \/ Iter(d) \/ \E p \in Peers : Finish(p, d)
+\* the receiver of a running transfer leaves: handlePeerLeft releases the slot, cancels the transfer's context and
+\* dispatches with a fresh context - a call of the read loop (dispatcher d)
+LeaveRunning(p, d) ==
+  /\ ~CountOnce /\ ~owed /\ d <= Callers /\ pc[d] = "idle" /\ p \in launched /\ p \in active
+  /\ \A e \in 1..Callers : pc[e] \in {"idle", "done"}
+  /\ left' = left \cup {p}
+  /\ Region(d, active \ {p}, 0, FALSE)
+  /\ deadCtx' = [deadCtx EXCEPT ![d] = FALSE]
+  /\ UNCHANGED <<launched, accepted, owed>>
+  /\ Step([a |-> "LeaveRunning", p |-> p, d |-> d])
+
+\* the transfer function of a receiver that left returns (its context is cancelled); the slot is gone already;
+\* the tail dispatches - with that cancelled context, or with the context its own was derived from
+FinishLeft(p, d) ==
+  /\ ~CountOnce /\ d > Callers /\ pc[d] = "idle" /\ p \in launched /\ p \in left
+  /\ launched' = launched \ {p}
+  /\ Region(d, active, 0, TailUsesOwnCtx)
+  /\ deadCtx' = [deadCtx EXCEPT ![d] = TailUsesOwnCtx]
+  /\ UNCHANGED <<left, accepted, owed>>
+  /\ Step([a |-> "FinishLeft", p |-> p, d |-> d])
+
+\* a late receiver accepts: the read loop puts it into the queue (its dispatch is a Start of its own)
+Enqueue(q) ==
+  /\ q \in LatePeers \ accepted /\ ~owed
+  /\ \A r \in LatePeers : r < q => r \in accepted     \* (numbered in the order in which they accept: FIFO compares numbers)
+  /\ \A e \in 1..Callers : pc[e] \in {"idle", "done"}
+  /\ \E e \in 1..Callers : pc[e] = "idle"      \* (the bounded model keeps a call for the dispatch that follows)
+  /\ accepted' = accepted \cup {q} /\ queue' = Append(queue, q) /\ owed' = TRUE
+  /\ UNCHANGED <<active, launched, pc, claim, free, left, deadCtx, deadStarts>>
+  /\ Step([a |-> "Enqueue", q |-> q])
+
+Next == \/ \E d \in Disp : Start(d) \/ Iter(d) \/ \E p \in Peers : Finish(p, d) \/ LeaveRunning(p, d) \/ FinishLeft(p, d)
+        \/ \E q \in LatePeers : Enqueue(q)
 Spec == Init /\ [][Next]_vars
 
 \* ---- properties (C12) --------------------------------------------------------------------
 Capacity == Cardinality(active) <= Max
 \* when no dispatcher is between two iterations, nobody waits while a slot is free
 Quiet == \A d \in Disp : pc[d] \in {"idle", "done"}
-WorkConserving == (Quiet /\ \E d \in Disp : pc[d] = "done") => (queue = <<>> \/ Cardinality(active) >= Max)
+WorkConserving == (Quiet /\ ~owed /\ \E d \in Disp : pc[d] = "done") => (queue = <<>> \/ Cardinality(active) >= Max)
+\* nobody is started with a context that is already cancelled (he never left: only a receiver that leaves is cancelled)
+NoDeadStart == deadStarts = {}
 FIFO == \A i, j \in 1..Len(queue) : i < j => queue[i] < queue[j]
 
-View == <<queue, active, launched, pc, claim, free>>
+View == <<queue, active, launched, pc, claim, free, left, deadCtx, deadStarts, accepted, owed>>
 Emit == PrintT("E " \o ToJson([act |-> lastAct', d |-> depth', pk |-> ToString(View), qk |-> ToString(View'),
-                               x |-> [queue |-> queue', active |-> active', pc |-> pc', claim |-> claim']]))
+                               x |-> [queue |-> queue', active |-> active', pc |-> pc', claim |-> claim', dead |-> deadStarts']]))
 =============================================================================
